@@ -537,3 +537,7 @@ _addtie("C03", ["TieSlurp"], TIE_SLURP)
 _addcamp("C02", "wfonce", 300, 30000)
 _addcamp("C03", "multi", 300, 10000)
 _addcamp("C14", "copy", 800, 30000)
+# names of one connection are never visible to another (C07): overlapping connections that prepare the same name
+_addcamp("C07", "multi", 500, 20000)
+# a `$n` placeholder chosen by the client bounds what ParseParameters allocates (C04): direct calls, every magnitude
+_addcamp("C04", "params", 1200, 60000)
